@@ -589,10 +589,16 @@ class NP:
     def f_sign(self, interp, line, a):
         return as_tensor(a).map(lambda x: z_ite(cmpop('>', x, 0), 1, z_ite(cmpop('<', x, 0), -1, 0)), dtype='int')
 
-    def f_mod(self, interp, line, a, b):
+    def f_mod(self, interp, line, a, b, out=None):
         ctx = interp.ctx
         ctx.use('numpy.mod: real semantics 0 <= r < b, a - r in bZ (A-REAL)')
-        return interp.binary('%', a, b, line)
+        r = interp.binary('%', a, b, line)
+        if out is not None:
+            return self._out(as_tensor(r), out, a)  # in place: every alias of `out` sees the new values
+        return r
+
+    def f_rint(self, interp, line, a):
+        return self.f_around(interp, line, a)
 
     def f_around(self, interp, line, a, decimals=0):
         if decimals != 0:
@@ -1113,8 +1119,17 @@ class NP:
     def m_mean(self, interp, line, t, axis=None):
         return self.unit.reduce_mean(interp, t, axis, line)
 
-    def f_cumsum(self, interp, line, a, axis=None):
-        return self.unit.cumsum(interp, as_tensor(a), axis, line)
+    def f_cumsum(self, interp, line, a, axis=None, out=None):
+        r = self.unit.cumsum(interp, as_tensor(a), axis, line)
+        if out is not None:
+            src = as_tensor(a)
+            if out is src:
+                # the result closes over the source's element function: keep the old one alive before overwriting in place
+                old_fn = src.fn
+                frozen = STensor(src.shape, old_fn, src.dtype)
+                r = self.unit.cumsum(interp, frozen, axis, line)
+            return self._out(r, out, a)
+        return r
 
     def sum_iter(self, interp, it, line):
         from .values import SSeq
